@@ -274,16 +274,34 @@ theorem cwmh_component (k : Kernel) (logd : Nat → Vec → XVal) (xall : Vec) (
     exact this
 
 /-- The state returned by `cwStep` is the composition of the one-coordinate steps over
-    `0, …, dim−1`; the scale and gradient cache are untouched. -/
-theorem cwStep_eq_fold (k : Kernel) (logd : Nat → Vec → XVal) (st : St) (z : Vec) (ells : List XVal) :
-    let r := (List.range st.x.length).foldl (cwSimple k logd (cwPropose st z) ells) (st.x, st.logd)
-    (cwStep k logd st z ells).1 = { st with x := r.1, logd := r.2 } := by
+    `0, …, dim−1` (proposal coordinates as stored by the work vectors: unchanged for float64,
+    truncated for an integer dtype); the scale and gradient cache are untouched. -/
+theorem cwStep_eq_fold (k : Kernel) (logd : Nat → Vec → XVal) (st : St) (z : Vec) (ells : List XVal)
+    (intDtype : Bool) :
+    let r := (List.range st.x.length).foldl
+      (cwSimple k logd ((cwPropose st z).map (coerce intDtype)) ells) (st.x, st.logd)
+    (cwStep k logd st z ells intDtype).1 = { st with x := r.1, logd := r.2 } := by
   unfold cwStep
   simp only
-  have := (cwmh_component k logd (cwPropose st z) ells (List.range st.x.length)
+  have := (cwmh_component k logd ((cwPropose st z).map (coerce intDtype)) ells (List.range st.x.length)
     { xt := st.x, xstar := st.x, evalT := st.logd, acc := [], queries := [] } rfl).2
   simp only at this
   rw [← this]
+
+/-- with float64 work vectors the proposal coordinates are used as drawn -/
+theorem coerce_float (v : Vec) : v.map (coerce false) = v := by
+  have : coerce false = id := by funext q; rfl
+  rw [this, List.map_id]
+
+/-- **Code-faithful negative result (experimental CWMH, integer `initial_point`):** the work
+    vectors inherit the integer dtype, every proposal coordinate is truncated toward zero before it
+    is evaluated and stored — e.g. the draw `5/2` becomes `2`, so the chain lives on the integer
+    lattice and the proposal `trunc(x_j + s z)` is not the symmetric random walk. -/
+theorem cw_int_truncates :
+    (cwStep .expCWMH (fun _ _ => fin 0) ⟨[0, 0], fin 0, [], [1]⟩ [5/2, -5/2] [fin (-1), fin (-1)] true).1.x = [2, -2]
+    ∧ (cwStep .expCWMH (fun _ _ => fin 0) ⟨[0, 0], fin 0, [], [1]⟩ [5/2, -5/2] [fin (-1), fin (-1)] false).1.x
+        = [5/2, -5/2] := by
+  constructor <;> decide +kernel
 
 /-- One-coordinate step of CWMH (both interfaces; any kernel with both guards) never installs a
     non-finite value. -/
